@@ -70,9 +70,9 @@ Print Assumptions C13_num_reports_is_count.
 (* Each datum's value is the number of distinct X among the reports that
    have a program report for that program carrying a configured bucket which
    normalises to the datum's key -- whatever the map iteration orders and
-   the sort implementation (iter_ok), for every request whose normaliser does
-   not panic on its buckets and whose less is a strict total order on its
-   keys (req_ok). *)
+   the sort implementation (iter_ok), for every request whose less is a
+   strict total order on its keys (req_ok; all of charts()'s normalisers are
+   total). *)
 Theorem C13_partition_value_spec :
   forall it rs pk q c,
   iter_ok it -> req_ok q -> run_req it (group rs) pk q = Some (Some c) ->
@@ -124,7 +124,7 @@ Proof. exact handle_chart_ok_spec. Qed.
 Print Assumptions C13_chart_meets_spec.
 
 (* ... and a chart object is produced whenever every day of the range is
-   readable and the configuration is in the class cfg_ok (no panic). *)
+   readable (cfg_ok holds only the premises on the two comparators). *)
 Theorem C13_chart_total :
   forall it lts ltg cfg read start end_,
   iter_ok it -> cfg_ok lts ltg cfg -> (start <= end_)%Z ->
@@ -212,34 +212,33 @@ Theorem C13_oracle_accepts_model :
 Proof. exact chart_ok_accepts_model. Qed.
 Print Assumptions C13_oracle_accepts_model.
 
-(* ---- known finding: class malformed-goversion ---------------------- *)
+(* ---- totality (finding 16, fixed by 48ba0d4) ----------------------- *)
 
-(* "all configurations" fails: a configured Go version on which goMajorMinor
-   slices out of range ("go1") makes handleChart panic ... *)
-Theorem C13_goversion_refuted :
-  config_wellformed witness_cfg = false /\
-  handle_chart iter_id bltb bltb witness_cfg (fun _ => ROk [witness_report]) 0 0 = ChartPanic.
-Proof. exact goversion_refuted. Qed.
-Print Assumptions C13_goversion_refuted.
+(* charts() and handleChart never panic: for ALL configurations (any
+   GoVersion strings, incl. "go1", "g", ""), all reports, all iteration
+   orders, sort implementations and comparators -- no premise at all.
+   Before the fix goMajorMinor sliced "go1" out of range and the model had
+   a refuted theorem here. *)
+Theorem C13_charts_never_panics :
+  forall it lts ltg cfg s e d xs, charts it lts ltg cfg s e d xs <> None.
+Proof. exact charts_never_panics. Qed.
+Print Assumptions C13_charts_never_panics.
 
-(* ... in general: any configuration of that class with a program to chart,
-   as soon as one report in range has a program report. *)
-Theorem C13_malformed_config_panics :
-  forall it lts ltg cfg s e rs,
-  iter_ok it -> order_ok lts (fun _ => True) ->
-  config_wellformed cfg = false -> cf_programs cfg <> [] -> group rs <> [] ->
-  charts it lts ltg cfg s e (group rs) (map r_x rs) = None.
-Proof. exact malformed_config_panics. Qed.
-Print Assumptions C13_malformed_config_panics.
+Theorem C13_handle_chart_never_panics :
+  forall it lts ltg cfg read start end_, handle_chart it lts ltg cfg read start end_ <> ChartPanic.
+Proof. exact handle_chart_never_panics. Qed.
+Print Assumptions C13_handle_chart_never_panics.
 
-(* every "go" N "." ... string (N decimal, no leading zero) is outside the class *)
-Theorem C13_goversion_shape_no_panic :
-  forall p maj c rest,
-  length p = 2%nat -> maj <> [] -> forallb is_digit maj = true ->
-  (nth 0 maj 0%N <> 48%N \/ length maj = 1%nat) -> is_digit c = false ->
-  go_major_minor (p ++ maj ++ c :: rest) <> None.
-Proof. exact go_major_minor_no_panic. Qed.
-Print Assumptions C13_goversion_shape_no_panic.
+(* the former witness: goMajorMinor now maps go1, g, "", go12 to "" (and
+   go1.21.3 to go1.21), and the configuration GoVersion=["go1"] is charted *)
+Theorem C13_goversion_witness_charted :
+  map go_major_minor [[103; 111; 49]%N; [103%N]; []; [103; 111; 49; 50]%N; [103; 111; 49; 46; 50; 49; 46; 51]%N]
+    = [[]; []; []; []; [103; 111; 49; 46; 50; 49]%N] /\
+  exists name ps,
+    handle_chart iter_id bltb bltb witness_cfg (fun _ => ROk [witness_report]) 0 0
+      = ChartOk name (mkCD (fmt_date 0) (fmt_date 0) ps 1).
+Proof. exact goversion_witness_charted. Qed.
+Print Assumptions C13_goversion_witness_charted.
 
 (* ---- non-vacuity --------------------------------------------------- *)
 
@@ -251,7 +250,7 @@ Example C13_merge_premises_satisfiable :
   exists (enc : nat -> bytes) (dec : bytes -> option nat),
     (forall r, ~ In nl (enc r)) /\ (forall r, enc r <> []) /\ (forall r, dec (enc r) = Some r).
 Proof. exact merge_premises_satisfiable. Qed.
-(* a configuration in cfg_ok (GoVersion go1.21.3, go1.21, go1.9; one program
+(* a configuration with cfg_ok for the lexical order (GoVersion go1.21.3, go1.21, go1.9; one program
    with versions [v1] and counter f:{a,b}) and the chart of four reports, two
    of them with the same X: X=7 is counted once under v1, go1.21.3 and go1.21
    merge into go1.21, the report without program reports counts in NumReports *)
